@@ -4,8 +4,8 @@
    what altrios-core's own source decides: which fields are written, skipped, defaulted, rebuilt.
    This file holds only the pinned statements; the proofs are in proofs/CodecP.v, CodecSchemaP.v. *)
 From Coq Require Import Reals List Bool ZArith String.
-From AltModel Require Import Num Interp Powertrain Loco Codec CodecSchema.
-From AltProofs Require Import NumR InterpP PowertrainP LocoP C08P CodecP CodecSchemaP.
+From AltModel Require Import Num Interp Powertrain Loco Codec CodecSchema Consist.
+From AltProofs Require Import NumR InterpP PowertrainP LocoP C08P CodecP CodecSchemaP ConsistCodecP.
 Import ListNotations.
 Open Scope R_scope.
 
@@ -109,3 +109,22 @@ Check C17_resume_equiv_exact : forall (l : Loco (F:=R)) pre i post,
    well-typed for its schema *)
 Example C17_fc_typed : has_tyb sch_fc (fc_to_val (fc_default_state 3000000 25 20000 [0; 1] [0.3; 0.4])) = true.
 Proof. apply fc_ty. Qed.
+
+(* --- typed: a CONSIST of the numeric model (Consist.v; proofs/ConsistCodecP.v) reloads as itself with every unit's lazily
+   rebuilt maps cleared; doing it again changes nothing; the positional format too when no field was skipped; and the
+   reloaded consist is unit by unit what reloading each locomotive on its own returns, with policy, limit flag and state
+   untouched.  The embedding [consist_to_val] is tied to the real serializer by kind typed_embed of this check (the
+   projection of the real tree equals the record printed from the object's fields). *)
+Theorem C17_consist_roundtrip : forall c : Consist (F:=R), consist_decode (consist_encode c) = Ok (consist_normalize c).
+Proof. exact consist_roundtrip. Qed.
+Theorem C17_consist_second_roundtrip : forall c c1 : Consist (F:=R),
+  consist_decode (consist_encode c) = Ok c1 -> consist_decode (consist_encode c1) = Ok c1.
+Proof. exact consist_roundtrip_twice. Qed.
+Theorem C17_consist_positional_roundtrip : forall c : Consist (F:=R),
+  no_skip sch_consist (consist_to_val c) = true -> consist_decode_pos (consist_encode_pos c) = Ok (consist_normalize c).
+Proof. exact consist_positional_roundtrip. Qed.
+Theorem C17_consist_reload_is_unitwise : forall c c1 : Consist (F:=R),
+  consist_decode (consist_encode c) = Ok c1 ->
+  Forall2 (fun l l1 => loco_decode (loco_encode l) = Ok l1) (cn_locos c) (cn_locos c1) /\
+  cn_pdct c1 = cn_pdct c /\ cn_assert_limits c1 = cn_assert_limits c /\ cn_state c1 = cn_state c.
+Proof. exact consist_reload_is_unitwise. Qed.
